@@ -96,6 +96,17 @@ def make_pool(seed, n):
                         d.pop("onstart", None)
             GROUPS[len(out)] = i
             out.append(gen.render(m2, scenarios=scen, trailer=trailer))
+    # tasks that cannot be completed (task-level limits, never-working resource, bound past the horizon): a repeated
+    # schedule() must not retry them on top of what their first attempt left in the ledgers (sensitivity probe
+    # C12-no-idempotence-guard)
+    out.append('project f1 "F" 2025-03-03 +1w {\n  timezone "Etc/UTC"\n}\nresource r "r" {}\nresource q "q" {}\n'
+               'task starved "s" {\n  effort 200h\n  allocate r\n  limits { dailymax 1h }\n}\n'
+               'task pair "p" {\n  effort 90h\n  allocate r, q\n  limits { weeklymax 6h }\n  priority 800\n}\n'
+               'task ok "o" {\n  effort 3h\n  allocate q\n  depends starved\n}\n'
+               'taskreport rf1 "rf1" {\n  formats csv\n  columns id, start, end\n}\n')
+    out.append('project f2 "F" 2025-03-03 +2w {\n  timezone "Etc/UTC"\n  timingresolution 30min\n}\nresource r "r" {\n  leaves annual 2025-03-03 - 2026-03-03\n}\nresource q "q" {}\n'
+               'task g "g" {\n  limits { dailymax 2h }\n  task never "n" {\n    effort 4h\n    allocate r\n  }\n  task slow "s" {\n    effort 300h\n    allocate q\n  }\n}\n'
+               'task late "l" {\n  effort 2h\n  allocate q\n  start 2025-09-01\n}\n')
     fx = sorted(glob.glob(os.path.join(common.REPO, "tests", "data", "*.tjp")))
     for f in fx[: max(2, n // 8)]:
         try:
